@@ -196,6 +196,22 @@ check('C15',
       'machine-checked proof in Coq (Flocq comparison theorem; exact digit-shuffle theorem) + exact correspondence run (vm_compute) + exact-rational monitor',
       'DESIGN.md 5 C15')
 
+check('C08',
+      'Coq theorems (Props/C08.v, exact rationals, axiom-free) about Model/Polyco.v, which mirrors from_polyco / __call__ / f0 / phasepol / '
+      '_get_index_and_dt / intervals: the phase of an entry (rphase split, coeffs[0] += frac, coeffs[1] += 60 F0, domain [-60,60] '
+      'converted, Horner) at dt seconds from TMID IS the tempo formula RPHASE + 60 DT F0 + sum COEFF(i) DT^(i-1) with DT = dt/60, for '
+      'every coefficient count; with entries sorted by TMID and one span, a time inside some span is evaluated from an entry whose span '
+      'contains it; the formal derivative used by f0 is the first Taylor coefficient of the exactly recentred polynomial (and obeys the '
+      'product rule); phasepol\'s reference phase plus recentred polynomial reproduces the prediction and starts in [0,1); the validity '
+      'intervals cover every span, are more than eps apart and end at span end points; times outside every interval are refused. '
+      'PARTIAL: time_at (Newton iteration) and the float64 evaluation error are decided by the correspondence run (model evaluated by '
+      'vm_compute on the exact decimal numbers of generated polyco texts and the exact two-double times) and the monitor (tempo formula '
+      'with fractions.Fraction: |phase - formula| <= 1e-8 cycles).',
+      'Trusted: Coq kernel; astropy Time differences as exact rationals (TAI); float64 Horner error below 1e-8 inside the sampled envelope '
+      'F0*span/2 <= 2e6 cycles; searchsorted on float MJD (times within 20 us of a span end excluded from the selection comparison).',
+      'machine-checked proof in Coq (Q) + correspondence run (vm_compute) + exact-rational monitor',
+      'DESIGN.md 5 C08')
+
 ALL = [f'C{i:02d}' for i in range(1, 21)]
 
 def main():
